@@ -46,13 +46,13 @@ type CPlan struct {
 	// Preload: so many complete events (a third of them with three records) are
 	// pushed through the Reassembler by the driver before the tasks exist: what a
 	// long-running process has accumulated when the interesting moment comes.
-	Preload   int      `json:"preload,omitempty"`
+	Preload int `json:"preload,omitempty"`
 	// PreOpen: so many further events are left open (one record, no terminator)
 	// by the preload, in a Reassembler with room for them; whoever closes has
 	// them all to deliver.
-	PreOpen int `json:"pre_open,omitempty"`
-	Ticker    bool     `json:"ticker"` // one extra task calls Maintain every 500 ms (as cmd/auparse does)
-	Ticks     int      `json:"ticks"`
+	PreOpen int  `json:"pre_open,omitempty"`
+	Ticker  bool `json:"ticker"` // one extra task calls Maintain every 500 ms (as cmd/auparse does)
+	Ticks   int  `json:"ticks"`
 }
 
 func (p *CPlan) Valid() bool {
@@ -259,13 +259,13 @@ type cStream struct {
 	preLate  int                       // preloaded records delivered after the preload (those left open)
 	kept     [][]*auparse.AuditMessage // some of the slices handed over, as a Stream may keep them
 	keptCopy [][]*auparse.AuditMessage // what they held then
-	h     *core.Hist
-	sc    *core.Sched
-	sh    *cShared
-	plan  *CPlan
-	ra    **libaudit.Reassembler
-	reMsg []*auparse.AuditMessage
-	start time.Time
+	h        *core.Hist
+	sc       *core.Sched
+	sh       *cShared
+	plan     *CPlan
+	ra       **libaudit.Reassembler
+	reMsg    []*auparse.AuditMessage
+	start    time.Time
 }
 
 // msgIDs maps the message objects handed to PushMessage in the current run to
